@@ -116,8 +116,12 @@ def validate(
     validators: Optional[Iterable[Validator]] = None,
     kwargs: Optional[Mapping[str, Any]] = None,
     *,
-    aliaser: Aliaser = lambda s: s,
+    aliaser: Optional[Aliaser] = None,
 ) -> T:
+    if aliaser is None:
+        from apischema import settings
+
+        aliaser = settings.aliaser
     if validators is None:
         validators = get_validators(obj.__class__)
     else:
